@@ -324,6 +324,22 @@ pub fn run(prop: &str, tier: &str, replay: Option<&str>) -> i32 {
                         leak(n, "certificate DER", cert.der(), &mut f);
                         leak(n, "certificate PEM", cert.pem().as_bytes(), &mut f);
                         leak(n, "Debug of Certificate", format!("{:?} {:#?}", cert, cert).as_bytes(), &mut f);
+                        // the certificate as ISSUER with this key: a leaf that points back at it (authority key identifier) for another
+                        // key, for the same key, and through a request; the state's own key-identifier method is the issuer's
+                        // (an empty pre-specified identifier among them)
+                        {
+                            let mut leaf = rcgen::CertificateParams::default();
+                            leaf.use_authority_key_identifier_extension = true;
+                            leaf.serial_number = Some(rcgen::SerialNumber::from_slice(&[9]));
+                            let other = crate::keys::stub_key(Alg::Ed25519, &crate::keys::fake_pub(Alg::Ed25519, 0x19)).0;
+                            if let Ok(Ok(l)) = guarded(|| leaf.clone().signed_by(&other, &cert, kp)) {
+                                leak(n, "leaf issued under the key (DER)", l.der(), &mut f);
+                                leak(n, "Debug of leaf issued under the key", format!("{:?}", l).as_bytes(), &mut f);
+                            }
+                            if let Ok(Ok(l)) = guarded(|| leaf.clone().signed_by(kp, &cert, kp)) {
+                                leak(n, "self-issued leaf (DER)", l.der(), &mut f);
+                            }
+                        }
                         // CRL issued by this certificate with this key
                         if let Ok(Ok(crl)) = guarded(|| to_crl_params(&CrlState::default()).unwrap().signed_by(&cert, kp)) {
                             leak(n, "CRL DER", crl.der(), &mut f);
